@@ -6,6 +6,66 @@ ROOT = os.path.dirname(os.path.dirname(os.path.abspath(__file__)))
 
 # id -> (level category, technique, level text, level note, design ref)
 CHECKS = {
+ "C01": ("exploration",
+         "property-based testing with a compiled differential: grammars decoded from proptest byte tapes are compiled by the real LALRPOP + rustc in batches and compared with a reference membership oracle (span DP cross-checked against Earley) on generated inputs; batch tape shrinking",
+         "Generated-input search over G-full grammars (macros, repetitions, groups, #[inline], default and user actions, all binding forms, several pub symbols, extern and built-in lexers) that LALRPOP accepts x all pub symbols x {table-driven, recursive ascent} x {lane table, canonical LR(1), LALR(1)} x inputs (model sentences, single-token mutations, random strings, all strings up to length 3, empty). 60 grammars -> ~140 accepted parsers -> ~2e4 parses quick; 1500 grammars thorough.",
+         "Trusts the harness's reference model (harness/src/model + gspec.rs elaboration, written from the book and the property statements; membership is computed by two independent algorithms that are cross-checked on every run), rustc, and the batch runtime rt.rs. Grammar sizes are bounded (<= 6 nonterminals + helpers, <= 8 terminals, inputs <= 16 tokens, all strings up to length 3).",
+         "DESIGN.md section 3, C01"),
+ "C02": ("exploration",
+         "property-based testing with a compiled differential against a reference evaluator (bottom-up evaluation of the unique derivation tree: canonical value rendering + action log); batch tape shrinking",
+         "As C01 on accepted inputs: the returned value must equal the model's rendering of the derivation (user actions render Name(children..) through a rendering trait, default actions per the type-inference chapter, `<>`/named/mut/tuple bindings) and the action log must be the post-order of the non-inlined nodes.",
+         "Trusts the harness's reference model (harness/src/model + gspec.rs elaboration, written from the book and the property statements; membership is computed by two independent algorithms that are cross-checked on every run), rustc, and the batch runtime rt.rs. Grammar sizes are bounded (<= 6 nonterminals + helpers, <= 8 terminals, inputs <= 16 tokens, all strings up to length 3). Log order with inlined user actions is compared as a multiset here (exact order is C14's subject).",
+         "DESIGN.md section 3, C02"),
+ "C03": ("exploration",
+         "property-based testing against the harness's own textbook canonical LR(1) and LALR(1) constructions (two variants, to tell the known empty-lookahead divergence apart)",
+         "CFG skeletons (random + template families: LR(1)-not-LALR(1), LR(2), ambiguous, dangling else, nullable chains, unproductive nonterminals, bracket families; `? * +`, groups, #[inline], several pub symbols) x {lane table, canonical LR(1), LALR(1), lane + #[LALR]} through the real CLI: conflict diagnostic iff the oracle finds a conflict for some pub symbol. 1200 grammars x 4 configurations quick, 60000 thorough; parallel tape shrinking.",
+         "Trusts the own LR constructions (aborted above 4000 states, counted) and the model's inlining of `* ? ()` helpers. With the lane table on, #[LALR] is documented to have no effect, so the criterion there is canonical LR(1).",
+         "DESIGN.md section 3, C03"),
+ "C04": ("exploration",
+         "property-based testing with a compiled differential against a viable-prefix oracle (Earley recogniser over the productive grammar) and a counting token iterator",
+         "Reduced grammars without `!` x rejected inputs x all 6 configurations: UnrecognizedToken must carry exactly the first token that makes the prefix non-viable with its exact span, UnrecognizedEof the end of the last token (default location for empty input), the token iterator is never asked for more than k items, ExtraToken never occurs.",
+         "Trusts the harness's reference model (harness/src/model + gspec.rs elaboration, written from the book and the property statements; membership is computed by two independent algorithms that are cross-checked on every run), rustc, and the batch runtime rt.rs. Grammar sizes are bounded (<= 6 nonterminals + helpers, <= 8 terminals, inputs <= 16 tokens, all strings up to length 3).",
+         "DESIGN.md section 3, C04"),
+ "C05": ("exploration",
+         "property-based testing with a compiled differential against a valid-continuation oracle (Earley item sets)",
+         "As C04: every entry of `expected` must be a valid continuation of the consumed prefix, no duplicates, never the error pseudo-terminal; under canonical LR(1) the list must equal the full continuation set. The recursive-ascent backend's documented over-approximation under merged lookaheads is a listed known finding (signatures C05/overbroad/ascent/{lane,lalr}); the table-driven backend and every other failure class stay asserted.",
+         "Trusts the harness's reference model (harness/src/model + gspec.rs elaboration, written from the book and the property statements; membership is computed by two independent algorithms that are cross-checked on every run), rustc, and the batch runtime rt.rs. Grammar sizes are bounded (<= 6 nonterminals + helpers, <= 8 terminals, inputs <= 16 tokens, all strings up to length 3).",
+         "DESIGN.md section 3, C05"),
+ "C06": ("exploration",
+         "property-based testing with a compiled differential against a location model with an exact layer, a bounded layer and a table-vs-ascent differential layer",
+         "Grammars dense in @L/@R, empty productions, inlined items and nested inlining, extern lexer with gapped token spans (usize and a newtype location) and built-in lexer with random whitespace x accepted inputs x 6 configurations.",
+         "Trusts the harness's reference model (harness/src/model + gspec.rs elaboration, written from the book and the property statements; membership is computed by two independent algorithms that are cross-checked on every run), rustc, and the batch runtime rt.rs. Grammar sizes are bounded (<= 6 nonterminals + helpers, <= 8 terminals, inputs <= 16 tokens, all strings up to length 3). Where the statement leaves the value open (a marker whose preferred neighbour is an inlined item deriving nothing) only the interval [end of last solid symbol before, start of first solid symbol after] is asserted.",
+         "DESIGN.md section 3, C06"),
+ "C07": ("exploration",
+         "differential property-based testing: every generated grammar is printed with and without #[recursive_ascent], compiled, and both parsers are run on the same generated inputs",
+         "All grammars of the suite without `!` x all inputs (accepted and rejected) x 3 algorithms: same Ok rendering or same error variant, token, span, location and user error. No model involved.",
+         "Trusts rustc and the batch runtime; expected-token lists are excluded (C05).",
+         "DESIGN.md section 3, C07"),
+ "C08": ("exploration",
+         "property-based testing of compiled parsers with deterministic step counters (actions + token pulls), catch_unwind and a driver watchdog",
+         "All accepted grammars x all inputs: no panic, no driver crash, step budget 64 (n+2) |P| + 256 never exceeded, at most n+1 token pulls.",
+         "Trusts the harness's reference model (harness/src/model + gspec.rs elaboration, written from the book and the property statements; membership is computed by two independent algorithms that are cross-checked on every run), rustc, and the batch runtime rt.rs. Grammar sizes are bounded (<= 6 nonterminals + helpers, <= 8 terminals, inputs <= 16 tokens, all strings up to length 3). A watchdog expiry without counter evidence is exit 2 (inconclusive), never a violation.",
+         "DESIGN.md section 3, C08"),
+ "C12": ("exploration",
+         "property-based testing with a compiled differential against the documented tiered operator grammar built by the model",
+         "One annotated nonterminal with binary / prefix / postfix / ternary / atomic alternatives over 1-4 arbitrary level numbers in non-monotone order, inherited levels and associativities, all assoc kinds, referenced from a wrapper, a repeat and a parenthesised atom x 6 configurations x operator/operand sequences: same accept/reject and same rendered tree as the tiered grammar.",
+         "Trusts the harness's reference model (harness/src/model + gspec.rs elaboration, written from the book and the property statements; membership is computed by two independent algorithms that are cross-checked on every run), rustc, and the batch runtime rt.rs. Grammar sizes are bounded (<= 6 nonterminals + helpers, <= 8 terminals, inputs <= 16 tokens, all strings up to length 3).",
+         "DESIGN.md section 3, C12"),
+ "C13": ("exploration",
+         "property-based testing with a compiled differential against model expansion by substitution into fresh nonterminals",
+         "Macro-heavy G-full grammars (1-2 parameter macros, conditions == != ~~ !~, nested uses, repetition of groups and macros): same language and same values (Vec in input order, Option, tuples) as the substituted grammar.",
+         "Trusts the harness's reference model (harness/src/model + gspec.rs elaboration, written from the book and the property statements; membership is computed by two independent algorithms that are cross-checked on every run), rustc, and the batch runtime rt.rs. Grammar sizes are bounded (<= 6 nonterminals + helpers, <= 8 terminals, inputs <= 16 tokens, all strings up to length 3).",
+         "DESIGN.md section 3, C13"),
+ "C17": ("exploration",
+         "property-based testing with a compiled differential against a model timeline (token i pulled at 2i, node [a,b) reduced at 2b+1) with injected faults: poisoned tokens that make fallible actions fail and Err items at any stream index",
+         "Grammars with `=>?` actions (plain, inlined, in start productions) x sentences x poison flags x injected stream errors x 6 configurations: exact error (User / other ParseError variant / stream error as User), exact action log up to the failure, exact number of token pulls.",
+         "Trusts the harness's reference model (harness/src/model + gspec.rs elaboration, written from the book and the property statements; membership is computed by two independent algorithms that are cross-checked on every run), rustc, and the batch runtime rt.rs. Grammar sizes are bounded (<= 6 nonterminals + helpers, <= 8 terminals, inputs <= 16 tokens, all strings up to length 3).",
+         "DESIGN.md section 3, C17"),
+ "C19": ("exploration",
+         "property-based testing: generated well-typed grammars are compiled in batches; rustc diagnostics are attributed to generated modules through macro-expansion chains",
+         "G-full grammars mixing annotated and inferred types (tuples, Vec/Option from repeats and macros, payload tokens, usize / Copy newtype / Clone-only newtype locations, both lexers) x both code generators x 3 algorithms: every unit LALRPOP accepts must compile.",
+         "User code is well-typed by construction (actions render through a trait implemented for every value type); generics / user lifetimes beyond 'input are not generated.",
+         "DESIGN.md section 3, C19"),
  "C21": ("exploration",
          "stateful / model-based property testing: operation histories decoded from proptest byte tapes, interpreted against the real file system and against the model expected_output = F(current text) (F = memoised forced build in a separate directory); oracle = byte equality with F, inode+ns-mtime identity for already-current outputs, absence of output after a failed build; tape shrinking of failing histories",
          "Generated-input search over histories of <= 25 operations on 1-3 grammar files (edit, revert, touch, introduce/remove error, build through the CLI and the Configuration API in 7 modes with in-source / flat / mirrored output locations, forced or not, delete output, 6 version-line and 8 hash-line corruptions, truncation inside the header, foreign complete output, output mtime older/newer). Invariant checked after every build step. 500 histories (~3000 builds) quick, 12000 thorough.",
